@@ -176,6 +176,35 @@ func runC10Order(c *Ctx) {
 							continue // judged by the append rule above
 						}
 					}
+					// `if x < acc { acc = x }` (or >, with a "not set yet" sentinel): a running minimum / maximum
+					if in0, ok := lf.(ssa.Instruction); ok || true {
+						_ = in0
+						isMinMax := false
+						for i, e := range phi.Edges {
+							_ = e
+							pred := phi.Block().Preds[i]
+							if !inLoop(pred) || len(pred.Instrs) == 0 {
+								continue
+							}
+							for _, g := range guardsAt(pred.Instrs[len(pred.Instrs)-1]) {
+								for _, ge := range expandGuardDeep(g) {
+									bo, ok := ge.Cond.(*ssa.BinOp)
+									if !ok {
+										continue
+									}
+									switch bo.Op {
+									case token.LSS, token.LEQ, token.GTR, token.GEQ:
+										if (sameQuantity(bo.X, lf) && dependsOnPhi(bo.Y, phi)) || (sameQuantity(bo.Y, lf) && dependsOnPhi(bo.X, phi)) {
+											isMinMax = true
+										}
+									}
+								}
+							}
+						}
+						if isMinMax {
+							continue
+						}
+					}
 					if _, isNext := lf.(*ssa.Extract); isNext || !isConstLike(lf) {
 						sensitive = append(sensitive, "assigns a loop-dependent value to a variable that outlives the iteration (last one wins) at "+c.P.Pos(lf.Pos()))
 					}
